@@ -694,7 +694,7 @@ func init() {
 	harness.Register(&harness.Prop{
 		ID: "C16", Engine: "E1", Level: "exploration", Gen: genC16, Exec: execC16,
 		Runs:      map[string]int{"quick": 200000, "thorough": 6000000},
-		Rule:      "seeded histories in which valid operations are interleaved with calls built to fail at each validation and capacity point (30 kinds: names, dims, chunk/max dims, datatypes, data length/type, duplicates, missing parents, attribute kinds/sizes, resize, closed handles, repeated Close); the model ignores every call that returned an error; after restart the logical dump must equal the model and later calls must behave normally; no call may panic; non-trivial = a failing call followed by a successful call and a reopened file; distinct by (superblock version, set of (op, failure kind) that failed)",
+		Rule:      "seeded histories in which valid operations are interleaved with calls built to fail at each validation and capacity point (30 kinds: names, dims, chunk/max dims, datatypes, data length/type, duplicates, missing parents, attribute kinds/sizes, resize, closed handles, repeated Close); the model ignores every call that returned an error; after restart the logical dump must equal the model and later calls must behave normally; transparency: every history with rejected calls is executed a second time without them - a call that succeeds there but is refused after the rejected calls is a violation, and when all outcomes agree the two closed files must have equal logical content (8% of the histories contain a rejection storm: one long name requested 4-14 more times in one group, then new long names); no call may panic; non-trivial = a failing call followed by a successful call and a reopened file; distinct by (superblock version, set of (op, failure kind) that failed)",
 		Technique: "deterministic simulation: seeded histories with failing calls vs model that ignores failed calls",
 		Assumptions: []string{"I/O errors are not injected here (C17 covers them); only API-level rejection and capacity exhaustion",
 			"a call built to fail that nevertheless succeeds is applied to the model when the model can represent it"},
@@ -765,7 +765,7 @@ func init() {
 	harness.Register(&harness.Prop{
 		ID: "C05", Engine: "E1", Level: "exploration", Gen: genC05, Exec: execC05,
 		Runs:      map[string]int{"quick": 150000, "thorough": 4000000},
-		Rule:      "files produced by the seeded histories of C01-C04, C10, C12, C13 (all superblock versions) are closed and decoded by an independent from-the-specification decoder (sim/specdec, imports nothing from /repo): every structure in [0,filesize) and below the superblock EOF address, extents pairwise disjoint, signatures/versions/sizes/checksums consistent, decoded tree/shapes/types/element bytes/attributes/vlen elements equal to the model; non-trivial = >= 3 distinct structure kinds decoded; distinct by (superblock version, set of structure kinds, object count)",
+		Rule:      "files produced by the seeded histories of C01-C04, C10, C12, C13 (all superblock versions) are closed and decoded by an independent from-the-specification decoder (sim/specdec, imports nothing from /repo): every structure in [0,filesize) and below the superblock EOF address, extents pairwise disjoint, signatures/versions/sizes/checksums consistent (incl. the fractal heap header's object count against the records of the link resp. attribute name index), decoded tree/shapes/types/element bytes/attributes/vlen elements equal to the model; non-trivial = >= 3 distinct structure kinds decoded; distinct by (superblock version, set of structure kinds, object count)",
 		Technique: "deterministic simulation histories + independent spec decoder over the closed file as oracle",
 		Assumptions: []string{"the independent decoder is the trusted base; it decodes 451 of the 543 bundled reference files without findings (the rest are deliberately corrupt or multi-file members)",
 			"decoder limitations (structure kind not implemented) are counted, never reported as violations"},
